@@ -23,7 +23,7 @@ import time
 from . import VERIF
 
 CACHE_DIR = os.path.join(VERIF, ".cache")
-FACTS_VERSION = 4
+FACTS_VERSION = 5
 
 
 def _worker(root: str, out_path: str) -> None:
@@ -56,9 +56,20 @@ def _worker(root: str, out_path: str) -> None:
     opts.namespace_packages = True
     opts.explicit_package_bases = True
     opts.warn_unreachable = False
+    # one opt-in diagnostic is kept as a fact: reads of a local that is not bound on every path (possibly-undefined); see
+    # props/common.py undefined_locals_rule
+    opts.enable_error_code = ["possibly-undefined"]
+    opts.process_error_codes(error_callback=lambda m: None)
     srcs = create_source_list(["src/ramses_tx", "src/ramses_rf", "src/ramses_cli"], opts)
     res = build.build(srcs, opts)
     blocking = [e for e in res.errors if "syntax" in e.lower()]
+    import re as _re
+
+    undefined = []
+    for e in res.errors:
+        m = _re.match(r'^(src/[^:]+):(\d+): error: Name "([^"]+)" may be undefined\s+\[possibly-undefined\]', e)
+        if m:
+            undefined.append((m.group(1), int(m.group(2)), m.group(3)))
 
     def atoms(t, depth=0):
         t = get_proper_type(t)
@@ -176,7 +187,7 @@ def _worker(root: str, out_path: str) -> None:
 
     with open(out_path + ".tmp", "wb") as fh:
         pickle.dump(
-            {"version": FACTS_VERSION, "facts": facts, "members": members, "n_errors": len(res.errors), "blocking": blocking},
+            {"version": FACTS_VERSION, "facts": facts, "members": members, "n_errors": len(res.errors), "blocking": blocking, "undefined": undefined},
             fh,
             protocol=pickle.HIGHEST_PROTOCOL,
         )
@@ -190,6 +201,7 @@ class TypeFacts:
         self.facts = data["facts"]
         self.members = data["members"]
         self.n_errors = data["n_errors"]
+        self.undefined: list[tuple[str, int, str]] = data.get("undefined", [])
 
     def type_of(self, module: str, node) -> tuple[str, ...] | None:
         m = self.facts.get(module)
